@@ -431,6 +431,10 @@ def workload(ctx):
                     ctx.run("C18.pair", (g, ab, bb))
                 ctx.case(("unary", g, ab), True, n=0)
                 ctx.run("C18.unary", (g, ab, rng.choice([1, -2, F(3, 2)])))
+                # complex coefficients (Gaussian integers: exact in binary floats): the algebra
+                # is over whatever ring the coefficients live in, nothing is conjugated
+                ctx.count("complex_coefficient_blades")
+                ctx.run("C18.unary", (g, ab, rng.choice([1j, -2j, 1 + 1j, 2 - 2j, -1 + 1j])))
             ctx.node(f"dim{n}")
             if n <= 3 or (ctx.thorough and n == 4 and rng.random() < 0.2):
                 for ab, bb, cb in itertools.product(range(nb), repeat=3):
@@ -486,6 +490,7 @@ def workload(ctx):
     ctx.floor("blade_products", 50000)
     ctx.floor("triples", 20000)
     ctx.floor("inv_checked", 500)
+    ctx.floor("complex_coefficient_blades", 300)
     ctx.floor("dense_multivectors", 50)
     ctx.floor("general_inverse_returned", 100)
     ctx.floor("general_inverse_refused", 100)
